@@ -10,7 +10,7 @@ set_option linter.unusedSimpArgs false
 theorem guards_sites_size_at : Generated.guardSitesSizeAt = [("Deme.size_at", 5, 0)] := by decide +kernel
 
 theorem guards_context_size_at : Generated.guardContextSizeAt =
-    [("guard_size_at_inf", []), ("guard_size_at_epoch", ["for epoch in self.epochs"]),
+    [("guard_size_at_inf", []), ("guard_size_at_epoch", ["for v0 in self.epochs"]),
      ("guard_size_at_end_size", [])] := by decide +kernel
 
 /-- first branch: `math.isinf(time) and math.isinf(self.start_time)` -/
@@ -22,8 +22,8 @@ theorem guard_size_at_inf_meaning (t start : ETime) :
 
 /-- epoch selection: `epoch.start_time > time >= epoch.end_time` -/
 theorem guard_size_at_epoch_meaning (eStart : ETime) (eEnd : Q) (t : ETime) :
-    Generated.guard_size_at_epoch (epoch_start_time := Num.ofETime eStart) (time := Num.ofETime t)
-      (epoch_end_time := Num.fin eEnd)
+    Generated.guard_size_at_epoch (v0_start_time := Num.ofETime eStart) (time := Num.ofETime t)
+      (v0_end_time := Num.fin eEnd)
       = (decide (t < eStart) && decide (ETime.fin eEnd ≤ t)) := by
   unfold Generated.guard_size_at_epoch
   cases t <;> cases eStart <;> guard_close
@@ -31,8 +31,8 @@ theorem guard_size_at_epoch_meaning (eStart : ETime) (eEnd : Q) (t : ETime) :
 /-- the end-size shortcut: `math.isclose(time, epoch.end_time) or epoch.size_function == "constant"
 or epoch.start_size == epoch.end_size` (`isclose` opaque; the Model supplies `closeDefault`) -/
 theorem guard_size_at_end_size_meaning (close : Bool) (sizeFunction : String) (startSize endSize : Q) :
-    Generated.guard_size_at_end_size (isclose_time_epoch_end_time := close) (epoch_size_function := sizeFunction)
-      (epoch_start_size := Num.fin startSize) (epoch_end_size := Num.fin endSize)
+    Generated.guard_size_at_end_size (isclose_time_v0_end_time := close) (v0_size_function := sizeFunction)
+      (v0_start_size := Num.fin startSize) (v0_end_size := Num.fin endSize)
       = (close || sizeFunction = "constant" || startSize = endSize) := by
   unfold Generated.guard_size_at_end_size
   cases close <;> guard_close
@@ -40,9 +40,9 @@ theorem guard_size_at_end_size_meaning (close : Bool) (sizeFunction : String) (s
 /-- `sizeAt` makes exactly the source's three tests -/
 theorem guards_tie_size_at : sizeAt = sizeAtWith
     (fun t s => Generated.guard_size_at_inf (time := t) (self_start_time := s))
-    (fun es t ee => Generated.guard_size_at_epoch (epoch_start_time := es) (time := t) (epoch_end_time := ee))
-    (fun c sf ss es => Generated.guard_size_at_end_size (isclose_time_epoch_end_time := c)
-      (epoch_size_function := sf) (epoch_start_size := ss) (epoch_end_size := es)) := by
+    (fun es t ee => Generated.guard_size_at_epoch (v0_start_time := es) (time := t) (v0_end_time := ee))
+    (fun c sf ss es => Generated.guard_size_at_end_size (isclose_time_v0_end_time := c)
+      (v0_size_function := sf) (v0_start_size := ss) (v0_end_size := es)) := by
   funext d t
   unfold sizeAt sizeAtWith
   simp only [guard_size_at_inf_meaning, guard_size_at_epoch_meaning, guard_size_at_end_size_meaning]
